@@ -58,3 +58,59 @@ Fixpoint spec_lines (nsrc nnames : Z) (lines : list bytes) (dst_line : Z) (st : 
 Definition spec_decode_mappings (nsrc nnames : Z) (mappings : bytes) : outcome (list rtoken) :=
   match spec_lines nsrc nnames (split_on 59 mappings) 0 (mkD 0 0 0 0 []) with
   | Ok st => Ok (rev (d_toks st)) | Err e => Err e | Panic p => Panic p end.
+
+(* ---- strict reading: what a reader with exact integer arithmetic sees (no reduction mod 2^32).
+   Every running value must stay a u32; otherwise the string is not a v3 mappings string for such a reader. ---- *)
+Definition in_u32 (x : Z) : bool := (0 <=? x) && (x <? 4294967296).
+Definition strict_segment (nsrc nnames : Z) (dst_line : Z) (seg : bytes) (dst_col : Z) (st : dstate)
+  : outcome (Z * dstate) :=
+  match spec_parse seg with
+  | Err e => Err e
+  | Panic p => Panic p
+  | Ok nums =>
+    match nums with
+    | [c] =>
+      let col := dst_col + c in
+      if negb (in_u32 col) then Err EVlqOverflow else
+      Ok (col, mkD (d_src st) (d_sl st) (d_sc st) (d_name st)
+                   (mkTok dst_line col (d_sl st) (d_sc st) NONE NONE false :: d_toks st))
+    | [c; s; l; k] =>
+      let col := dst_col + c in
+      let src := d_src st + s in
+      if (src <? 0) || (nsrc <=? src) then Err EBadSourceRef else
+      let sl := d_sl st + l in let sc := d_sc st + k in
+      if negb (in_u32 col && in_u32 sl && in_u32 sc) then Err EVlqOverflow else
+      Ok (col, mkD src sl sc (d_name st) (mkTok dst_line col sl sc src NONE false :: d_toks st))
+    | [c; s; l; k; n] =>
+      let col := dst_col + c in
+      let src := d_src st + s in
+      if (src <? 0) || (nsrc <=? src) then Err EBadSourceRef else
+      let sl := d_sl st + l in let sc := d_sc st + k in
+      let name := d_name st + n in
+      if (name <? 0) || (nnames <=? name) then Err EBadNameRef else
+      if negb (in_u32 col && in_u32 sl && in_u32 sc) then Err EVlqOverflow else
+      Ok (col, mkD src sl sc name (mkTok dst_line col sl sc src name false :: d_toks st))
+    | _ => Err EBadSegmentSize
+    end
+  end.
+Fixpoint strict_segments (nsrc nnames dst_line : Z) (segs : list bytes) (col : Z) (st : dstate) : outcome dstate :=
+  match segs with
+  | [] => Ok st
+  | seg :: r =>
+    if is_nil seg then strict_segments nsrc nnames dst_line r col st
+    else match strict_segment nsrc nnames dst_line seg col st with
+         | Ok x => strict_segments nsrc nnames dst_line r (fst x) (snd x)
+         | Err e => Err e | Panic p => Panic p end
+  end.
+Fixpoint strict_lines (nsrc nnames : Z) (lines : list bytes) (dst_line : Z) (st : dstate) : outcome dstate :=
+  match lines with
+  | [] => Ok st
+  | l :: r =>
+    if is_nil l then strict_lines nsrc nnames r (dst_line + 1) st
+    else match strict_segments nsrc nnames dst_line (split_on 44 l) 0 st with
+         | Ok st' => strict_lines nsrc nnames r (dst_line + 1) st'
+         | Err e => Err e | Panic p => Panic p end
+  end.
+Definition strict_decode_mappings (nsrc nnames : Z) (mappings : bytes) : outcome (list rtoken) :=
+  match strict_lines nsrc nnames (split_on 59 mappings) 0 (mkD 0 0 0 0 []) with
+  | Ok st => Ok (rev (d_toks st)) | Err e => Err e | Panic p => Panic p end.
